@@ -186,7 +186,9 @@ class _FileInitWith(Generic[_WT]):
         else:
             async with cls.write_lock(path):
                 self._obj = obj = cls.file_open(path)
-                obj.file_write()
+                if not cls.file_exists(path):
+                    # still missing now that the lock is held
+                    obj.file_write()
         return obj
 
     async def __aexit__(self, exc_type: Any, exc_val: Any,
